@@ -19,7 +19,14 @@ fn mel_type<T: Uni + Encode + MaxEncodedLen>(cx: &mut Cx, name: &str) {
 	if cx.only.as_ref().map_or(false, |o| o != name) {
 		return;
 	}
-	let m = T::max_encoded_len();
+	// the constant is computed by generated code: arithmetic in it may overflow
+	let m = match std::panic::catch_unwind(T::max_encoded_len) {
+		Ok(m) => m,
+		Err(_) => {
+			cx.oracle.check(false, "max_encoded_len-panics", || format!("{name}\tmax_encoded_len() panics"));
+			return;
+		},
+	};
 	let desc = T::desc();
 	cx.stats.bump("mel-types");
 	if cx.cases.push(format!("(KMel {} {})", desc, m), name.to_string(), true) {
@@ -253,6 +260,68 @@ impl Uni for MelDup {
 	}
 }
 
+/// a field whose own bound is already usize::MAX (an array of usize::MAX one-byte elements; it is
+/// zero-sized in memory, and the only values generated hold None): sums over it must saturate
+#[derive(Encode, Decode, MaxEncodedLen, Debug, PartialEq, Clone)]
+pub struct SatS {
+	pub a: Option<[Unit1; usize::MAX]>,
+	pub b: u32,
+	pub c: u8,
+}
+#[derive(Encode, Decode, MaxEncodedLen, Debug, PartialEq, Clone)]
+pub enum SatE {
+	A(u8),
+	B { x: u16, y: Option<[Unit1; usize::MAX]>, z: u64 },
+}
+fn sat_field() -> String {
+	format!("(TOption (TArray {} {}))", usize::MAX, Unit1::desc())
+}
+impl Uni for SatS {
+	fn desc() -> String {
+		nest("TPair", "TUnit", &[sat_field(), u32::desc(), u8::desc()])
+	}
+	fn gen(r: &mut Rng, d: u32) -> Self {
+		SatS { a: None, b: u32::gen(r, d), c: u8::gen(r, d) }
+	}
+	fn val(&self) -> String {
+		nest("VPair", "VUnit", &["VNone".into(), self.b.val(), self.c.val()])
+	}
+	fn same(&self, o: &Self) -> bool {
+		self == o
+	}
+	fn min_wire() -> usize {
+		6
+	}
+}
+impl Uni for SatE {
+	fn desc() -> String {
+		format!(
+			"(TEnum (VsCons 0 {} (VsCons 1 {} VsNil)))",
+			nest("TPair", "TUnit", &[u8::desc()]),
+			nest("TPair", "TUnit", &[u16::desc(), sat_field(), u64::desc()])
+		)
+	}
+	fn gen(r: &mut Rng, d: u32) -> Self {
+		if r.below(2) == 0 {
+			SatE::A(u8::gen(r, d))
+		} else {
+			SatE::B { x: u16::gen(r, d), y: None, z: u64::gen(r, d) }
+		}
+	}
+	fn val(&self) -> String {
+		match self {
+			SatE::A(a) => format!("(VVar 0 {})", nest("VPair", "VUnit", &[a.val()])),
+			SatE::B { x, z, .. } => format!("(VVar 1 {})", nest("VPair", "VUnit", &[x.val(), "VNone".into(), z.val()])),
+		}
+	}
+	fn same(&self, o: &Self) -> bool {
+		self == o
+	}
+	fn min_wire() -> usize {
+		2
+	}
+}
+
 pub fn run(args: &Args) {
 	quiet_panics();
 	let mut cx = Cx {
@@ -278,7 +347,8 @@ pub fn run(args: &Args) {
 			Box<u8>, Box<(u8, Compact<u16>)>, Box<[u8; 16]>, Arc<u64>, Arc<Option<Box<u32>>>,
 			S1, UnitS, Nt, Sk, Disc, G<u8>, G<Option<Box<u8>>>, G<Compact<u64>>, Tr, Box<Tr>, [Disc; 3], (S1, Disc), Option<Sk>,
 			CpM, EaM, EnM, [CpM; 2], Option<EaM>, (EnM, CpM), G<CpM>,
-			Result<u8, u32>, Result<bool, u128>, Result<(), [u8; 9]>, Unit1, TrE, OneV, OneSk, Option<OneV>, [OneSk; 2], (Unit1, OneV), Box<TrE>, MelDup, [MelDup; 2], Option<MelDup>
+			Result<u8, u32>, Result<bool, u128>, Result<(), [u8; 9]>, Unit1, TrE, OneV, OneSk, Option<OneV>, [OneSk; 2], (Unit1, OneV), Box<TrE>, MelDup, [MelDup; 2], Option<MelDup>,
+			[Unit1; 4], [TrU; 3], (u8, [Unit1; 8]), Option<[Unit1; 2]>, [[Unit1; 2]; 2], SatS, SatE, (SatS, u8), Option<SatE>
 		);
 		crate::for_types!(cel_type, cx;
 			u8, u16, u32, u64, u128, i8, i16, i32, i64, i128, bool, (),
